@@ -361,6 +361,9 @@ func c18Check(t h.TB, fl c18Flow, store string, k int, kind string, second *[2]i
 		if len(w.Tx.TxErrors) > 0 {
 			fail("C18/transaction-discipline", "%v", w.Tx.TxErrors)
 		}
+		if len(w.Tx.CtxErrors) > 0 {
+			fail("C18/transaction-discipline", "%v", w.Tx.CtxErrors)
+		}
 	}
 	// 4. transactional store + failure inside the issuing transaction: exactly as before
 	rolledBack := w.Tx != nil && inTx && !resp.ok && (unexpected || kind == "crash") && !tolerated
